@@ -461,6 +461,77 @@ struct QueueProg : Program
     }
 };
 
+// size() observed concurrently with pushes and pops: it must be one of the values the queue really had
+struct QueueSizeProg : Program
+{
+    std::unique_ptr<igris::safe_queue<int>> q;
+    std::atomic<int> pushed{0}, popped{0};
+    std::atomic<int> seen[3], lo[3], hi[3];
+    QueueSizeProg()
+    {
+        name = "Q_size";
+        for (int i = 0; i < 3; i++)
+        {
+            seen[i] = -1;
+            lo[i] = 0;
+            hi[i] = 0;
+        }
+    }
+    void setup() override
+    {
+        q.reset(new igris::safe_queue<int>{7}); // the initializer-list constructor: one item already queued
+        sched::spawn(
+            [this] {
+                q->push(1);
+                pushed++;
+                q->push(2);
+                pushed++;
+                log.returned[0] = 1;
+            },
+            "producer");
+        sched::spawn(
+            [this] {
+                for (int i = 0; i < 3; i++)
+                {
+                    // bounds that hold whatever the interleaving: pushes finished before / started before the call
+                    int p0 = pushed.load(), c0 = popped.load();
+                    int v = (int)q->size();
+                    int p1 = pushed.load(), c1 = popped.load();
+                    seen[i] = v;
+                    lo[i] = 1 + p0 - c1 - 1; // a pop may be in flight
+                    hi[i] = 1 + p1 + 1 - c0; // a push may be in flight
+                }
+                log.returned[1] = 1;
+            },
+            "observer");
+        sched::spawn(
+            [this] {
+                int v = q->pop(); // the pre-queued item (or, wrongly, something else)
+                popped++;
+                if (v != 7)
+                    log.fail(2, "reordered", "the item queued by the constructor did not come out first");
+                log.returned[2] = 1;
+            },
+            "consumer");
+    }
+    void check(const sched::Result &r) override
+    {
+        report_log();
+        if (r.deadlock)
+        {
+            mc::violation("C20." + name + ".deadlock", "blocked forever: %s", r.trace.c_str());
+            return;
+        }
+        for (int i = 0; i < 3; i++)
+            if (seen[i] < std::max(0, lo[i].load()) || seen[i] > hi[i])
+                mc::violation("C20." + name + ".size_value", "size() call %d returned %d, possible range [%d,%d]", i, seen[i].load(),
+                              std::max(0, lo[i].load()), hi[i].load());
+        if (q->size() != 2)
+            mc::violation("C20." + name + ".size", "final size %zu, want 2", q->size());
+        mc::outcome(mc::fmt("Q_size %d %d %d", seen[0].load(), seen[1].load(), seen[2].load()));
+    }
+};
+
 // ------------------------------------------------------------------ registration
 static void add_one(const std::string &pname, std::function<Program *()> make, int b, int spurious, bool thorough_only);
 static void add_prog(const std::string &pname, std::function<Program *()> make, int qbound, int tbound)
@@ -526,6 +597,7 @@ MC_INIT
         add_prog(WaitProg(v).name, [v] { return new WaitProg(v); }, 2, 3);
         add_one(WaitProg(v).name, [v] { return new WaitProg(v); }, 2, 1, true); // + one spurious condvar wake-up
     }
+    add_prog("Q_size", [] { return new QueueSizeProg(); }, 2, 3);
     for (int c = 1; c <= 2; c++)
         add_prog(QueueProg(c).name, [c] { return new QueueProg(c); }, c == 1 ? 2 : 1, c == 1 ? 3 : 2);
 }
